@@ -719,6 +719,13 @@ func buildEvidence(id, tier string, seed int64, spec *propSpec, results []*harne
 			"branch_decisions": r.Stats.branches, "case_splits": r.Stats.splits, "merges": r.Stats.merges, "assertions_checked": r.Stats.asserts,
 			"solver_queries": r.Stats.queries, "solver_time_s": round1(r.Stats.solverTime), "ssa_instructions_executed": r.Stats.steps,
 			"max_decision_depth": r.Stats.maxDepth, "wall_s": round1(r.Wall), "witnesses_replayed": len(r.Witnesses)})
+		if r.Stats.schedPaths > 0 {
+			perHarness[len(perHarness)-1]["schedule_mode"] = map[string]interface{}{
+				"deviation_bound": r.Stats.schedBound, "paths": r.Stats.schedPaths, "visible_operations_recorded": r.Stats.schedEvents,
+				"paths_with_0_deviations": r.Stats.schedByDev[0], "paths_with_1_deviation": r.Stats.schedByDev[1], "paths_with_2_deviations": r.Stats.schedByDev[2], "paths_with_3_or_more": r.Stats.schedByDev[3],
+				"fork_points": "every channel send/receive/select/close, go statement, socket Read/Write/Close, sleep, harness action and blocking point",
+			}
+		}
 		for i, c := range r.Cands {
 			if i < 2 {
 				samples = append(samples, map[string]interface{}{"harness": c.Harness, "violation": c.Kind + " " + c.Site + " " + c.Msg, "inputs": c.Inputs, "replay": c.Dir})
